@@ -44,7 +44,7 @@ theorem mem_specTable_id {ext : List Nat} {s c p : Nat} :
     applied to any model whose symbol table is `specTable lab ext`: no fault, same bins, same
     labels, and the converted models list the same symbol table again -/
 theorem C05_generic_conversions {Sym : Type} [DecidableEq Sym] [Inhabited Sym] {B P : Nat}
-    (lab : Nat → Sym) {ext : List Nat} (h : ValidExt P ext) (hP : P ≤ B) :
+    (lab : Nat → Sym) {ext : List Nat} (h : ValidExt P ext) (hP1 : 1 ≤ P) (hP : P ≤ B) :
     let L := labelledModel (labelsOf lab (ext.length - 1)) ext
     (∃ md, NcDec.fromTable B P (specTable lab ext) = .ok md ∧
       (∀ q, q < 2 ^ P → md.dec B q = .ok (L.dec q)) ∧ md.table B = .ok (specTable lab ext)) ∧
@@ -54,7 +54,7 @@ theorem C05_generic_conversions {Sym : Type} [DecidableEq Sym] [Inhabited Sym] {
       (∀ q, q < 2 ^ P → ml.dec B P q = .ok (L.dec q)) ∧ ml.table B = .ok (specTable lab ext) ∧
       (∀ q, q < 2 ^ P → ml.asNcDec.dec B q = .ok (L.dec q))) := by
   intro L
-  obtain ⟨md, d1, d2, d3, _⟩ := generic_decoder (B := B) lab h hP
+  obtain ⟨md, d1, d2, d3, _⟩ := generic_decoder (B := B) lab h hP1 hP
   obtain ⟨ml, l1, l2, l3, l4, _⟩ := generic_lookup (B := B) lab h hP
   refine ⟨⟨md, d1, d2, d3⟩, fun hnd s => generic_encoder lab ext hnd s, ml, l1, l2, l3, ?_⟩
   intro q hq
@@ -91,7 +91,8 @@ theorem C05_contiguous_lookup {B P : Nat} {m : Contiguous} (h : ValidCdf B P m.c
   rw [Lookup.dec_eq (m := { tbl := tbl, cdf := m.cdf }) h hP hok hq, Contiguous.dec_eq h hP hq]
 
 /-- **contiguous model → generic encoder / decoder / lookup model** -/
-theorem C05_contiguous_generic {B P : Nat} {m : Contiguous} (h : ValidCdf B P m.cdf) (hP : P ≤ B) :
+theorem C05_contiguous_generic {B P : Nat} {m : Contiguous} (h : ValidCdf B P m.cdf) (hP1 : 1 ≤ P)
+    (hP : P ≤ B) :
     ∃ t, m.table B = .ok t ∧
       (∃ md, NcDec.fromTable B P t = .ok md ∧ (∀ q, q < 2 ^ P → md.dec B q = m.dec B q) ∧
         md.table B = .ok t) ∧
@@ -99,7 +100,7 @@ theorem C05_contiguous_generic {B P : Nat} {m : Contiguous} (h : ValidCdf B P m.
       (∃ ml, NcLookup.fromTable B P t = .ok ml ∧ (∀ q, q < 2 ^ P → ml.dec B P q = m.dec B q) ∧
         ml.table B = .ok t) := by
   have hext := h.2
-  obtain ⟨⟨md, d1, d2, d3⟩, e1, ml, l1, l2, l3, _⟩ := C05_generic_conversions (B := B) id hext hP
+  obtain ⟨⟨md, d1, d2, d3⟩, e1, ml, l1, l2, l3, _⟩ := C05_generic_conversions (B := B) id hext hP1 hP
   refine ⟨_, Contiguous.table_eq h hP, ⟨md, d1, ?_, d3⟩, ?_, ml, l1, ?_, l3⟩
   · intro q hq
     rw [d2 q hq, Contiguous.dec_eq h hP hq, labelled_id_dec hext hq]
